@@ -26,6 +26,7 @@ class Years(Sub):
     ambient = True
     name = "years"
     kind = "enum"
+    case_timeout = 900.0
     backends = ("rust",)
     n = {"quick": 0, "thorough": 0}
     shards = {"quick": 2, "thorough": 2}
@@ -75,6 +76,7 @@ class Dates(Sub):
     ambient = True
     name = "dates"
     kind = "enum"
+    case_timeout = 900.0
     backends = ("rust",)
     n = {"quick": 0, "thorough": 0}
     shards = {"quick": 8, "thorough": 16}
@@ -129,6 +131,7 @@ def check_local_time(t, off, us):
 class LocalTimeBoundaries(Sub):
     name = "local_time_day_boundaries"
     kind = "enum"
+    case_timeout = 900.0
     backends = ("rust",)
     n = {"quick": 0, "thorough": 0}
     shards = {"quick": 8, "thorough": 16}
@@ -252,6 +255,7 @@ class GettersSkippedMidnight(Sub):
     ambient = True
     name = "getters_month_without_first_midnight"
     kind = "enum"
+    case_timeout = 900.0
     backends = ("rust", "py")
     n = {"quick": 0, "thorough": 0}
     shards = {"quick": 4, "thorough": 8}
